@@ -28,6 +28,27 @@ SYNC_RULE = ("sync stream: per case a fresh regtest canister (threshold 1-4, def
              "A case is distinct by the hash of its message kinds and budgets.")
 
 PROPS = {
+    "C10": {
+        "streams": [{"name": "sync", "quick": 320, "thorough": 3200}],
+        "rule": SYNC_RULE,
+        "explanation": "theorems: insert_block accepts iff parent in tree, not already a child of it, header valid (C11), body valid (C12) and push succeeds; rejected blocks return no state (atomic); in a response the first "
+                       "undecodable/rejected block bumps exactly one counter and the rest is dropped (result independent of the rest); garbage blocks / headers never trap; a complete response is consumed exactly once.",
+        "technique": "Lean 4 theorems (decision logic of admission, validate-before-mutate atomicity, prefix independence of process_response) + differential correspondence with scripted block sources",
+        "level_text": "Machine-checked admission logic for all responses and states of the model; compared with the canister after every heartbeat (syncing summary incl. error counters, tree size, announced headers) and through the query/snapshot/digest lines.",
+        "level_note": "Trusted: Lean kernel, harness (manual async executor hook), library decoders (the decoded form of every blob is supplied by the harness). Domain: valid-PoW blocks are transaction-valid; otherwise insert_block's expect() traps (and would trap again on every heartbeat) - outside the property's domain.",
+        "assumptions": ["regtest only for the end-to-end stream (proof of work must be mined); mainnet/testnet header rules are covered by C11's stream"],
+    },
+    "C13": {
+        "streams": [{"name": "sync", "quick": 320, "thorough": 3200}],
+        "rule": SYNC_RULE,
+        "explanation": "theorems over ALL action sequences of the async transition system (heartbeat split at its await): single flight (pending request iff guard flag), stored response always well-formed (the request-selection "
+                       "assertion never fails), request selection (initial names anchor + all other blocks; follow-ups numbered consecutively from 0), page reassembly = concatenation, reject clears partial data and the next "
+                       "request is initial, no hash twice in the tree, a stored complete response is applied by the next idle heartbeat.",
+        "technique": "Lean 4 invariants by induction over arbitrary interleavings of heartbeats, replies, upgrades, config changes and queries + differential correspondence with overlapping heartbeats through the yield-point hook",
+        "level_text": "Machine-checked invariants of the transition system for every schedule and reply script (no bound); the split of the heartbeat at its await is tied to the real async fn by the hook that suspends it before call_get_successors.",
+        "level_note": "Trusted: Lean kernel, harness + yield-point hook, the native mock of the inter-canister call. 'Eventually applied' is proved as one-step liveness (next heartbeat whose ingestion does no work), not as a fairness theorem. u8 page counter overflow is a trap in the model (debug) and unreachable with well-typed replies.",
+        "assumptions": ["replies have the kind their request asks for (other kinds trap the continuation; the trap state is modelled as rollback + guard release)"],
+    },
     "C03": {
         "streams": [{"name": "ledger", "quick": 160, "thorough": 1600}, {"name": "sync", "quick": 80, "thorough": 800}],
         "rule": LEDGER_RULE + " After every ingestion opportunity the line `advance` records how many anchors were popped, whether the new anchor lies on the chain served before, and whether a stable child is still pending.",
